@@ -31,7 +31,7 @@ func corpus(r *h.Run) {
 		for _, mode := range []string{"pre-cancelled", "pre-deadline"} {
 			r.Eval()
 			spec := treeSpec{Dirs: 1, Files: 1}
-			if res, err := runFS(ep, spec, mode, 0, false); err == nil {
+			if res, err := runFS(ep, spec, mode, 0, false, ""); err == nil {
 				report(r, checkPre(fsCase{EP: ep.Name, Spec: spec, Mode: mode}, res))
 			}
 		}
@@ -49,7 +49,7 @@ func gcReplay(r *h.Run, small, large int) {
 		return
 	}
 	r.Note(fmt.Sprintf("gc barrier schedule: fan-out %d -> %d goroutines held, %d backend operations after cancellation (%s); fan-out %d -> %d held, %d after (%s)", small, n1, a1, k1, large, n2, a2, k2))
-	r.Case(fmt.Sprintf("(mkCase (OpGcAfter %d %d) false None [] [] [] KNil 0 [] [])", large, a2), map[string]any{"gc_barrier_fanout": large, "after": a2})
+	r.Case(fmt.Sprintf("(mkCase (OpGcAfter %d %d) false None [] [] [] KNil 0 [] [] KCancelled)", large, a2), map[string]any{"gc_barrier_fanout": large, "after": a2})
 	if a2 > opsAfterBound && a2 > a1 {
 		r.Fail(gcSig, fmt.Sprintf("garbage collection of a directory of %d files, all per-entry goroutines past their context test when the context ends: %d further backend operations (%d for %d files) — grows with the fan-out, bound %d",
 			large, a2, a1, small, opsAfterBound), fsCase{EP: "GarbageCollect", Mode: "gc-barrier", Fanout: large})
@@ -65,20 +65,87 @@ func report(r *h.Run, fs []failure) {
 	}
 }
 
+func allFlavours() []string { return append(append([]string{}, instantFlavours...), timerFlavours...) }
+
+// context done before the call, in every way a context can be done (cancel / deadline, with and without causes)
 func fsPreCancelled(r *h.Run, spec treeSpec) {
 	for _, ep := range entryPoints() {
 		ep := ep
-		for _, mode := range []string{"pre-cancelled", "pre-deadline"} {
+		for _, fl := range allFlavours() {
 			r.Eval()
-			r.Count("fs-" + mode)
-			res, err := runFS(&ep, spec, mode, 0, false)
+			r.Count("fs-pre-done:" + wantKind(fl))
+			res, err := runFS(&ep, spec, "pre-cancelled", 0, false, fl)
 			if err != nil {
 				r.Note("setup failed for " + ep.Name + ": " + err.Error())
 				continue
 			}
-			report(r, checkPre(fsCase{EP: ep.Name, Spec: spec, Mode: mode}, res))
-			r.Distinct("pre|" + ep.Name + "|" + mode)
+			report(r, checkPre(fsCase{EP: ep.Name, Spec: spec, Mode: "pre-cancelled", Ctx: fl}, res))
+			r.Distinct("pre|" + ep.Name + "|" + fl)
 		}
+	}
+}
+
+// a real deadline (with a cause) expiring while the k-th backend operation is in progress: kind timeout
+func fsTimerMidRun(r *h.Run) {
+	spec := treeSpec{Dirs: 2, Files: 2, Big: 70000, Empty: 1}
+	type job struct {
+		ep *entryPoint
+		k  int64
+		fl string
+	}
+	var jobs []job
+	for i, name := range []string{"Walk", "LsRecursive", "ListDirTree", "Chmod", "Remove", "CleanDir", "Copy", "MoveNoRename", "Zip", "Unzip", "ReadFile", "WriteFile", "CopyToFile", "FileHash", "SubDirectories", "GarbageCollect"} {
+		ep := findEP(name)
+		if ep == nil {
+			continue
+		}
+		full, err := runFS(ep, spec, "cancel-at", -1, true, "")
+		if err != nil || full.Total == 0 {
+			continue
+		}
+		for j, k := range []int64{1, (full.Total + 1) / 2, full.Total - 1} {
+			if k < 1 {
+				continue
+			}
+			jobs = append(jobs, job{ep, k, timerFlavours[(i+j+int(r.Seed))%len(timerFlavours)]})
+		}
+	}
+	type out struct {
+		c    fsCase
+		res  fsResult
+		full fsResult
+		ok   bool
+	}
+	outs := make([]out, len(jobs))
+	var wg sync.WaitGroup
+	sem := make(chan struct{}, 16)
+	for i := range jobs {
+		wg.Add(1)
+		go func(i int) {
+			defer wg.Done()
+			sem <- struct{}{}
+			defer func() { <-sem }()
+			j := jobs[i]
+			full, err := runFS(j.ep, spec, "cancel-at", -1, true, "")
+			res, err2 := runFS(j.ep, spec, "cancel-at", j.k, false, j.fl)
+			outs[i] = out{fsCase{EP: j.ep.Name, Spec: spec, Mode: "cancel-at", K: j.k, Ctx: j.fl}, res, full, err == nil && err2 == nil}
+		}(i)
+	}
+	wg.Wait()
+	for _, o := range outs {
+		if !o.ok || !o.res.Fired {
+			continue
+		}
+		r.Eval()
+		r.Count("fs-deadline-expiring-mid-run")
+		fs := checkCancelAt(o.c, o.res, o.full)
+		for i := range fs {
+			if o.c.EP == "GarbageCollect" && fs[i].sig == "ops-after-cancel-unbounded:GarbageCollect" {
+				fs[i].sig = gcSig
+			}
+		}
+		report(r, fs)
+		r.Distinct("timer|" + o.c.EP + "|" + o.c.Ctx)
 	}
 }
 
@@ -124,7 +191,7 @@ func fsSweeps(r *h.Run) {
 			stride := int64(1)
 			if j.i >= 2 {
 				// every k in the thorough tier for the first big tree; a seeded selection otherwise
-				full, err := runFS(&j.ep, j.spec, "cancel-at", -1, false)
+				full, err := runFS(&j.ep, j.spec, "cancel-at", -1, false, "")
 				if err == nil && !(r.Thorough() && !r.Deep && j.i == 2 && full.Total < 3000) {
 					budget := r.N(40, 600)
 					if r.Deep {
@@ -158,7 +225,7 @@ func fsSweeps(r *h.Run) {
 		stats = append(stats, st)
 		if e, ok := modelled[st.EP]; ok {
 			t := coqTree(j.spec)
-			empty := "false None [] [] [] KNil 0 [] []"
+			empty := "false None [] [] [] KNil 0 [] [] KCancelled"
 			r.Case(fmt.Sprintf("(mkCase (OpEpTotal %s %s %d) %s)", e, t, st.Total, empty), map[string]any{"entry_point": st.EP, "tree": j.spec, "total_ops": st.Total})
 			budget := 110 // correspondence cases per entry point and tree (every k is still run and judged by the oracle)
 			if j.i >= 2 {
@@ -230,12 +297,12 @@ func main() {
 				defer osScratchCleanup()
 				r.Eval()
 				if ro.Mode == "os-cancel-at" {
-					full, err := runOS(ep, ro.Spec, "os-cancel-at", ro.Arg, -1)
-					res, err2 := runOS(ep, ro.Spec, "os-cancel-at", ro.Arg, ro.K)
+					full, err := runOS(ep, ro.Spec, "os-cancel-at", ro.Arg, -1, "")
+					res, err2 := runOS(ep, ro.Spec, "os-cancel-at", ro.Arg, ro.K, ro.Ctx)
 					if err == nil && err2 == nil {
 						report(r, checkCancelAt(ro.fsCase, res, full))
 					}
-				} else if res, err := runOS(ep, ro.Spec, ro.Mode, ro.Arg, 0); err == nil {
+				} else if res, err := runOS(ep, ro.Spec, ro.Mode, ro.Arg, 0, ro.Ctx); err == nil {
 					report(r, checkOSPre(ro.fsCase, res))
 				}
 				osScratchCleanup()
@@ -244,12 +311,12 @@ func main() {
 			if ep := findEP(ro.EP); ep != nil {
 				r.Eval()
 				if ro.Mode == "cancel-at" {
-					full, err := runFS(ep, ro.Spec, "cancel-at", -1, true)
-					res, err2 := runFS(ep, ro.Spec, "cancel-at", ro.K, false)
+					full, err := runFS(ep, ro.Spec, "cancel-at", -1, true, "")
+					res, err2 := runFS(ep, ro.Spec, "cancel-at", ro.K, false, ro.Ctx)
 					if err == nil && err2 == nil {
 						report(r, checkCancelAt(ro.fsCase, res, full))
 					}
-				} else if res, err := runFS(ep, ro.Spec, ro.Mode, 0, false); err == nil {
+				} else if res, err := runFS(ep, ro.Spec, ro.Mode, 0, false, ro.Ctx); err == nil {
 					report(r, checkPre(ro.fsCase, res))
 				}
 			}
@@ -272,6 +339,7 @@ func main() {
 	coverageNote(r)
 	fsPreCancelled(r, treeSpec{Dirs: 4, Files: 3, Big: 100000, Empty: 2})
 	fsSweeps(r)
+	fsTimerMidRun(r)
 	osLinks(r)
 	r.Finish()
 }
@@ -284,14 +352,20 @@ func osLinks(r *h.Run) {
 	}
 	defer osScratchCleanup()
 	spec := treeSpec{Dirs: 2, Files: 2, Big: 40000, Empty: 1}
+	osRot := int(r.Seed)
 	for _, ep := range entryPoints() {
 		ep := ep
 		for _, arg := range []string{argPlain, argLink, argDangling} {
-			for _, mode := range []string{"os-pre-cancelled", "os-pre-deadline"} {
+			all := allFlavours()
+			for fi, fl := range []string{"cancel", "deadline", all[(osRot+1)%len(all)], all[(osRot+8)%len(all)]} {
+				if fi >= 2 {
+					osRot++
+				}
+				mode := "os-pre-cancelled"
 				r.Eval()
-				r.Count("fs-" + mode + ":" + arg)
-				res, err := runOS(&ep, spec, mode, arg, 0)
-				c := fsCase{EP: ep.Name, Spec: spec, Mode: mode, Arg: arg, Backend: "os"}
+				r.Count("fs-os-pre-done:" + arg + ":" + wantKind(fl))
+				res, err := runOS(&ep, spec, mode, arg, 0, fl)
+				c := fsCase{EP: ep.Name, Spec: spec, Mode: mode, Arg: arg, Backend: "os", Ctx: fl}
 				if err != nil {
 					if arg == argPlain {
 						r.Note("OS setup failed for " + ep.Name + ": " + err.Error())
@@ -299,7 +373,7 @@ func osLinks(r *h.Run) {
 					continue // e.g. a handle cannot be opened on a dangling link: nothing to call
 				}
 				report(r, checkOSPre(c, res))
-				r.Distinct("ospre|" + ep.Name + "|" + mode + "|" + arg)
+				r.Distinct("ospre|" + ep.Name + "|" + fl + "|" + arg)
 			}
 		}
 	}
@@ -310,7 +384,7 @@ func osLinks(r *h.Run) {
 			continue
 		}
 		for _, arg := range []string{argPlain, argLink} {
-			full, err := runOS(ep, spec, "os-cancel-at", arg, -1)
+			full, err := runOS(ep, spec, "os-cancel-at", arg, -1, "")
 			if err != nil || full.Kind != "nil" {
 				r.Note(fmt.Sprintf("OS %s (%s) without cancellation: kind %s %s %v — sweep skipped", name, arg, full.Kind, full.Err, err))
 				continue
@@ -320,13 +394,14 @@ func osLinks(r *h.Run) {
 				if (r.Thorough() || full.Total <= 60 || k <= 15 || (k+r.Seed)%5 == 0) == false {
 					continue
 				}
-				res, err := runOS(ep, spec, "os-cancel-at", arg, k)
+				fl := instantFlavours[int(k+r.Seed)%len(instantFlavours)]
+				res, err := runOS(ep, spec, "os-cancel-at", arg, k, fl)
 				if err != nil {
 					continue
 				}
 				r.Eval()
 				r.Count("fs-os-cancel-at")
-				report(r, checkCancelAt(fsCase{EP: name, Spec: spec, Mode: "os-cancel-at", Arg: arg, K: k, Backend: "os"}, res, full))
+				report(r, checkCancelAt(fsCase{EP: name, Spec: spec, Mode: "os-cancel-at", Arg: arg, K: k, Backend: "os", Ctx: fl}, res, full))
 				if res.After > maxAfter {
 					maxAfter = res.After
 				}
